@@ -73,7 +73,10 @@ func (d *Dir) Write(files map[string][]byte) error {
 		return err
 	}
 
-	if err := os.Symlink(newDir, d.target+".new"); err != nil {
+	// The link body is resolved relative to the directory holding the link, which is
+	// also the directory holding newDir: use the bare name, so that a relative target
+	// with a directory component ("out/creds") does not resolve to "out/out/...".
+	if err := os.Symlink(filepath.Base(newDir), d.target+".new"); err != nil {
 		return err
 	}
 
